@@ -14,4 +14,13 @@ case "$CHECK" in
   C08m3) build_instrumented "$WORK" C08 || exit 2 ;;
   C09)   build_instrumented "$WORK" C09 || exit 2 ;;
 esac
+case "$CHECK" in
+  C08*)
+    # a finding about nondeterminism shows with some probability per execution: up to five attempts, any reproduction counts
+    for attempt in 1 2 3 4 5; do
+      VERIF_DIR="$(pwd)" "$WORK/gfsim" replay "$FILE"; code=$?
+      [ "$code" = "1" ] && exit 1
+    done
+    exit $code ;;
+esac
 VERIF_DIR="$(pwd)" "$WORK/gfsim" replay "$FILE"
